@@ -33,8 +33,13 @@ func (dv *Router) ribUpdate(ns *table.NeighborState) {
 			continue
 		}
 
-		// Use the advertised cost by default
-		cost := entry.Cost + localCost
+		// Use the advertised cost by default. Costs are 64-bit numbers on the
+		// wire: anything at or above infinity is unreachable, and must not be
+		// added to (the sum would wrap around to a small cost).
+		cost := config.CostInfinity
+		if entry.Cost < config.CostInfinity {
+			cost = entry.Cost + localCost
+		}
 
 		// Poison reverse - try other cost if next hop is us
 		if entry.NextHop.Name.Equal(dv.config.RouterName()) {
